@@ -77,6 +77,43 @@ pub fn run<C: W>(ctx: &mut Ctx) {
         }
     }
     let _ = rng.next_u32();
+    // Curve::batch_normalize and Sum on raw triples: identities / arbitrary Z = 0 triples at every
+    // position (the two passes skip them), all lengths 0..=7 in the quick tier
+    let n = raws.len();
+    let max_len = if crate::small(ctx) { 7 } else { 24 };
+    for len in 0..=max_len {
+        for variant in 0..(if len == 0 { 1 } else { 3 }) {
+            let pts: Vec<C::P> = (0..len).map(|i| raws[(i * 7 + len * 3 + variant * 5) % n].0).collect();
+            let toks: Vec<String> = pts.iter().map(raw_tok::<C>).collect();
+            let nz = pts.iter().filter(|p| bool::from(p.is_identity())).count();
+            ctx.count(&format!("{t}-batch:len{len}:identities{}", nz.min(3)));
+            let mut out = vec![C::A::identity(); len];
+            match mzkh::catch(|| {
+                C::P::batch_normalize(&pts, &mut out);
+                out.clone()
+            }) {
+                Err(msg) => crate::fail_once(ctx, &format!("C11:{t}:batch_normalize-panics-len{len}"), "Curve::batch_normalize panics", json!({"len": len, "panic": msg, "points": toks})),
+                Ok(out) => {
+                    if len > 0 {
+                        ctx.case(&format!("{t}-raw-batch-normalize"), true, &format!("{t} bnorm_raw {}", toks.join(" ")), &out.iter().map(a_tok::<C>).collect::<Vec<_>>().join(" "));
+                    }
+                    for (i, p) in pts.iter().enumerate() {
+                        if out[i] != p.to_affine() {
+                            crate::fail(ctx, &format!("C11:{t}:batch_normalize-raw {} [{i}]", toks.join(" ")), "batch_normalize differs from to_affine on one entry of a slice", json!({"index": i, "len": len}));
+                        }
+                    }
+                }
+            }
+            if len > 0 {
+                let s: C::P = pts.iter().sum();
+                ctx.case(&format!("{t}-raw-sum"), true, &format!("{t} sumraw {}", toks.join(" ")), &raw_tok::<C>(&s));
+                let s2: C::P = pts.iter().copied().sum();
+                if C::pcoords(&s) != C::pcoords(&s2) {
+                    crate::fail(ctx, &format!("C11:{t}:sum-owned {}", toks.join(" ")), "Sum over references and over values differ", json!({}));
+                }
+            }
+        }
+    }
 }
 
 /// BN254 G2 only: the `CofactorGroup` methods.
